@@ -1257,8 +1257,14 @@ static bool compile_builtin_call(CG *cg, ASTNode *node) {
          strcmp(name, "is_upper") == 0 || strcmp(name, "is_lower") == 0 ||
          strcmp(name, "is_whitespace") == 0) && argc == 1) {
         compile_expr(cg, args[0]);
-        char c_name[64];
-        snprintf(c_name, sizeof(c_name), "vm_%s", name);
+        /* the extern table keeps the pointer: the name must outlive this call */
+        const char *c_name =
+            strcmp(name, "is_digit") == 0 ? "vm_is_digit" :
+            strcmp(name, "is_alpha") == 0 ? "vm_is_alpha" :
+            strcmp(name, "is_alnum") == 0 ? "vm_is_alnum" :
+            strcmp(name, "is_space") == 0 ? "vm_is_space" :
+            strcmp(name, "is_upper") == 0 ? "vm_is_upper" :
+            strcmp(name, "is_lower") == 0 ? "vm_is_lower" : "vm_is_whitespace";
         int32_t ext_idx = extern_find(cg, c_name);
         if (ext_idx < 0) {
             uint8_t ptags[1] = {TAG_INT};
